@@ -16,6 +16,8 @@
 
 mod common;
 mod errors;
+#[cfg(xcp_verif)]
+mod verif;
 
 use std::{fs, ops::Range};
 
